@@ -39,6 +39,7 @@ PROPS = {
     "C02": dict(VS),
     "C04": dict(VS),
     "C07": dict(VS),
+    "C10": dict(VS),
     "C15": dict(SM),
     "C16": dict(SM),
     "C17": dict(SM),
